@@ -1,7 +1,8 @@
 (* C19 — Client requests are sent one at a time and answered in FIFO order.
    Statements only; proofs are in Proofs/HttpClientProofs.v.
 
-   run (init https redirectable) evs : the client's bookkeeping after an arbitrary
+   run mof (init_m https redirectable cmethod) evs : the client's bookkeeping (the
+   tag t has method mof t; the Client was constructed with method cmethod) after an arbitrary
    schedule evs of  Enq tag  (Client.request) and  Pass o  (one Client.service();
    o = Some reply when a complete reply was consumed in that pass).  All theorems
    quantify over every schedule and every server behaviour (immediate, delayed =
@@ -15,8 +16,8 @@ Local Open Scope N_scope.
    twice, same order, each carrying its originating request (origin = the tag in
    the entry's request, or in the first redirect of its history).  On the wire the
    original requests appear in queue order and at most one is unanswered. *)
-Theorem C19_fifo : forall https redirectable evs,
-  let s := run (init https redirectable) evs in
+Theorem C19_fifo : forall mof https redirectable cmethod evs,
+  let s := run mof (init_m https redirectable cmethod) evs in
   map Some (enqs evs) = map origin (responses s) ++ inflight s ++ map Some (queue s)
   /\ (length (inflight s) <= 1)%nat
   /\ (exists rest, enqs evs = wire_reqs (wire s) ++ rest)
@@ -38,15 +39,15 @@ Print Assumptions C19_redirect_step.
 (* ... and in every reachable state every entry's history consists of redirect
    statuses only, only its first hop carries a request tag, and an entry with a
    history carries no tag itself (the originating request is in the history). *)
-Theorem C19_history_attached : forall https redirectable evs,
-  Forall good_entry (responses (run (init https redirectable) evs)).
+Theorem C19_history_attached : forall mof https redirectable cmethod evs,
+  Forall good_entry (responses (run mof (init_m https redirectable cmethod) evs)).
 Proof. exact history_attached. Qed.
 Print Assumptions C19_history_attached.
 
 (* https -> http is refused: an https client stays on https connectors whatever
    the servers answer, and everything it ever sent went over https; *)
-Theorem C19_https_never_downgraded : forall redirectable evs,
-  let s := run (init true redirectable) evs in
+Theorem C19_https_never_downgraded : forall mof redirectable cmethod evs,
+  let s := run mof (init_m true redirectable cmethod) evs in
   https s = true /\ Forall (fun w => w_https w = true) (wire s).
 Proof. exact https_kept. Qed.
 Print Assumptions C19_https_never_downgraded.
@@ -60,6 +61,37 @@ Theorem C19_downgrade_refused : forall s r l h,
 Proof. exact downgrade_refused. Qed.
 Print Assumptions C19_downgrade_refused.
 
+(* Per-request methods (GET/HEAD/POST/PUT mixes, any constructor method): while a
+   request is in flight the respondent reads the reply with the method of exactly
+   that request, also across followed redirects, so the "HEAD reply has no body"
+   rule is applied to HEAD replies and to no others and every reply the server
+   sends for the request on the wire is consumed whole (readable). *)
+Theorem C19_method_tracks : forall mof https redirectable cmethod evs,
+  let s := run mof (init_m https redirectable cmethod) evs in
+  waited s = true ->
+  rs_method s = rq_method s /\ (forall t, inflight s = [Some t] -> rq_method s = mof t).
+Proof. exact method_tracks. Qed.
+Print Assumptions C19_method_tracks.
+
+Theorem C19_reply_always_readable : forall mof https redirectable cmethod evs r,
+  let s := run mof (init_m https redirectable cmethod) evs in
+  waited s = true -> readable s r = true.
+Proof. exact always_readable. Qed.
+Print Assumptions C19_reply_always_readable.
+
+(* Liveness is NOT part of what is proved and is false under a closing server
+   (open finding C19-close-strands-queue): after a reply whose server closes the
+   connection, the next request is popped but never reaches the wire and never
+   gets an entry, however many passes follow. *)
+Theorem C19_all_answered_refuted :
+  exists evs, let s := run (fun _ => 0) (init_m false true 0) (evs ++ repeat (Pass None) 50) in
+    enqs evs = [1; 2] /\ length (responses s) = 1%nat /\ waited s = true /\ wire_reqs (wire s) = [1].
+Proof.
+  exists [Enq 1; Enq 2; Pass None; Pass (Some {| rp_id := 0; rp_status := 200; rp_loc := None; rp_close := true |})].
+  vm_compute. repeat split.
+Qed.
+Print Assumptions C19_all_answered_refuted.
+
 (* Non-vacuity: three queued requests; the first is redirected twice (new host,
    then relative), the second is refused an https -> http... on an http client it
    is followed; the third gets a delayed plain answer. *)
@@ -72,7 +104,7 @@ Example C19_example :
               Pass (Some {| rp_id := 2; rp_status := 200; rp_loc := None; rp_close := false |});
               Pass None; Pass None;
               Pass (Some {| rp_id := 3; rp_status := 404; rp_loc := None; rp_close := false |}); Pass None] in
-  let s := run (init false true) evs in
+  let s := run (fun t => if t =? 6 then HEAD else 0) (init_m false true 0) evs in
   map origin (responses s) = [Some 5; Some 6] /\ inflight s = [Some 7] /\ queue s = [] /\
   map e_history (responses s) = [[(301, Some 5); (307, None)]; []] /\
   wire_reqs (wire s) = [5; 6; 7] /\ map w_conn (wire s) = [0; 1; 1; 1; 1].
@@ -82,7 +114,7 @@ Example C19_example_refused :
   let evs := [Enq 1; Enq 2; Pass None;
               Pass (Some {| rp_id := 0; rp_status := 302; rp_loc := Some {| l_host := Some 1; l_https := false |}; rp_close := false |});
               Pass None] in
-  let s := run (init true true) evs in
+  let s := run (fun _ => 0) (init_m true true HEAD) evs in
   map (fun e => (e_status e, e_errored e, e_tag e)) (responses s) = [(302, true, Some 1)] /\
   wire_reqs (wire s) = [1; 2] /\ map w_https (wire s) = [true; true].
 Proof. vm_compute. repeat split. Qed.
